@@ -232,6 +232,7 @@ type Block struct {
 	Dt       int64    `json:"dt"`       // seconds added to the previous block time (>=0)
 	Proposer int      `json:"proposer"` // validator index
 	Txs      [][]byte `json:"-"`
+	Hash     []byte   `json:"-"` // header hash handed to FinalizeBlock (default: HeaderHash)
 }
 
 // HeaderHash deterministically derives the hash handed to FinalizeBlock for a height.
@@ -253,6 +254,9 @@ func (c *Chain) RunBlock(b Block) (res *abci.ResponseFinalizeBlock, err error) {
 		nv = 1
 	}
 	hash := HeaderHash(h, t)
+	if len(b.Hash) > 0 {
+		hash = b.Hash
+	}
 	c.curTxs = b.Txs
 	if c.curTxs == nil {
 		c.curTxs = [][]byte{}
